@@ -11,10 +11,27 @@ from hypothesis import strategies as st
 
 
 def motif_edges(kind, vs):
-    if kind == "clique":
+    if kind in ("clique", "split4"):
         return [tuple(p) for p in combinations(vs, 2)]
     n = len(vs)
     return [(vs[i], vs[(i + 1) % n]) for i in range(n)]
+
+
+def topo_names(t):
+    """edge-topology names used inside one motif of topology t (most motifs: one name)."""
+    return list(t.get("names") or [t["name"]])
+
+
+def motif_edges_named(t, vs):
+    """[(u, v, edge name)].  'split4' is a 4-clique on [q1, p1, p2, q2] whose edges carry two names: the path
+    q1-p1-p2-q2 is 'strong', the complementary path p1-q2-q1-p2 is 'weak' (two vertex roles with the same corner
+    size and name set but different multiplicities), as the custom-motif generator can produce."""
+    if t["kind"] == "split4":
+        q1, p1, p2, q2 = vs
+        s, w = topo_names(t)
+        return [(q1, p1, s), (p1, p2, s), (p2, q2, s), (q1, p2, w), (q1, q2, w), (p1, q2, w)]
+    nm = topo_names(t)[0]
+    return [(u, v, nm) for u, v in motif_edges(t["kind"], vs)]
 
 
 @st.composite
@@ -27,7 +44,10 @@ def clean_network(draw, maxN=40, minN=6, max_motifs=60, topo_pool=None, min_topo
     topos = []
     for i, (k, s) in enumerate(chosen):
         name = f"{s}-{k}" if style == "plain" else f"{s}-{k}-blue#{i}"
-        topos.append({"kind": k, "size": s, "name": name})
+        t = {"kind": k, "size": s, "name": name}
+        if k == "split4":
+            t["names"] = [name + "-strong", name + "-weak"]
+        topos.append(t)
     N = draw(st.integers(max(minN, max(s for _, s in chosen)), maxN))
     used = set()
     motifs = []
@@ -66,11 +86,18 @@ def clean_network(draw, maxN=40, minN=6, max_motifs=60, topo_pool=None, min_topo
 
 
 def joint_degrees(case):
-    T = len(case["topos"])
-    jds = [[0] * T for _ in range(case["N"])]
+    """one column per edge-topology name; a vertex counts the motifs in which it has an edge of that name."""
+    nms = names(case)
+    col = {n: i for i, n in enumerate(nms)}
+    jds = [[0] * len(nms) for _ in range(case["N"])]
     for ti, vs in case["motifs"]:
-        for v in vs:
-            jds[v][ti] += 1
+        t = case["topos"][ti]
+        seen = set()
+        for u, v, nm in motif_edges_named(t, vs):
+            for w in (u, v):
+                if (w, nm) not in seen:
+                    seen.add((w, nm))
+                    jds[w][col[nm]] += 1
     return [tuple(r) for r in jds]
 
 
@@ -80,17 +107,25 @@ def build_graph(case, graph_cls=None):
     from gcmpy import NetworkNames as NN
     G = (graph_cls or nx.Graph)()
     jds = joint_degrees(case)
-    for v in range(case["N"]):
-        G.add_node(v, **{})
-        G.nodes[v][NN.JOINT_DEGREE] = jds[v]
+    if case.get("node_order") != "by_motifs":
+        # vertices registered 0..N-1 first (as EdgeListToNetwork does); otherwise they enter the graph in the
+        # order the motif list mentions them, so networkx reports some edges as (larger, smaller)
+        for v in range(case["N"]):
+            G.add_node(v)
     for mid, (ti, vs) in enumerate(case["motifs"]):
         t = case["topos"][ti]
-        for u, v in motif_edges(t["kind"], vs):
+        for u, v, nm in motif_edges_named(t, vs):
             G.add_edge(u, v)
-            G.edges[u, v][NN.TOPOLOGY] = t["name"]
+            G.edges[u, v][NN.TOPOLOGY] = nm
             G.edges[u, v][NN.MOTIF_IDS] = mid
+    for v in range(case["N"]):
+        G.add_node(v)
+        G.nodes[v][NN.JOINT_DEGREE] = jds[v]
     return G, jds
 
 
 def names(case):
-    return [t["name"] for t in case["topos"]]
+    out = []
+    for t in case["topos"]:
+        out.extend(topo_names(t))
+    return out
